@@ -251,6 +251,10 @@ def transform_path_to_dotted(sys_path, module_path):
                 if rest.startswith(os.path.sep) or rest.startswith('/'):
                     # Remove a slash in cases it's still there.
                     rest = rest[1:]
+                elif rest and not p.endswith((os.path.sep, '/')):
+                    # Just a prefix of the string (`/foo` of `/foobar/x.py`),
+                    # not a folder that contains the module.
+                    continue
 
                 if rest:
                     split = rest.split(os.path.sep)
